@@ -361,6 +361,41 @@ def _containers_and_errors(sh, crain, py_rain, variant):
             rf1 = f(inp)
             sh.check_equal(f"{nm}-container-table", np.asarray(rf1, float), want_rf,
                            {"container": name}, tags)
+    # narrow dtypes over their whole range: ranges are formed in double precision, whatever
+    # the input's own arithmetic would do (unsigned wrap-around, int8 overflow, float32 /
+    # float16 rounding of differences)
+    rr = core.rng(sh.seed, "C05", "dtype", variant)
+    for dt, lo, hi in (("uint8", 0, 255), ("uint16", 0, 65535), ("int8", -128, 127),
+                       ("int16", -32768, 32767), ("int32", -2**31, 2**31 - 1),
+                       ("uint32", 0, 2**32 - 1), ("float32", None, None),
+                       ("float16", None, None)):
+        for rep in range(6 if sh.tier == "quick" else 60):
+            n = int(rr.integers(4, 40))
+            if lo is None:
+                raw = (rr.standard_normal(n) * 10.0 ** rr.integers(-3, 4)).astype(dt)
+                if not np.all(np.isfinite(raw)):
+                    continue
+            else:
+                raw = rr.integers(lo, hi, n, endpoint=True).astype(dt)
+                if rep % 2:
+                    raw[rr.integers(0, n, 3)] = [lo, hi, lo]
+            x64 = raw.astype(np.float64)
+            if np.any(np.diff(x64) == 0):
+                keep = np.concatenate([[True], np.diff(x64) != 0])
+                raw, x64 = raw[keep], x64[keep]
+            if raw.size < 3:
+                continue
+            w_rf, w_os = _astm_tables(x64)
+            sh.case(["dtype", dt, variant, rep, raw.tolist()], True)
+            sh.count("cell:dtype:" + dt)
+            for f, nm in ((crain.rainflow, "c"), (py_rain.rainflow, "py")):
+                rf, os_ = f(raw, getoffsets=True)
+                sh.check_equal(f"{nm}-dtype-table", np.asarray(rf, float), w_rf,
+                               {"dtype": dt, "peaks": raw.tolist()}, tags)
+                sh.check_equal(f"{nm}-dtype-offsets", np.asarray(os_).astype(np.int64),
+                               w_os, {"dtype": dt, "peaks": raw.tolist()}, tags)
+                sh.check_equal(f"{nm}-dtype-table", np.asarray(f(raw), float), w_rf,
+                               {"dtype": dt, "peaks": raw.tolist()}, tags)
     bad = {"scalar": 3.0, "len1": [1.0], "empty": [], "2d": np.ones((3, 3)),
            "2d-1col": np.ones((4, 1)), "strings": ["a", "b", "c"],
            "none": None, "complex": [1 + 2j, 3.0, 1.0], "ragged": [[1, 2], [3]],
